@@ -8,6 +8,7 @@ import LitexProofs.Fhdl.InstanceExact
 import LitexProofs.Fhdl.SimBackendEquiv
 import LitexProofs.Fhdl.MemoryNEquiv
 import LitexProofs.Fhdl.ResetInsertCorrect
+import LitexProofs.Fhdl.ArraySelCorrect
 /-
   C01 — generated Verilog behaves exactly like the simulated FHDL design.
 
@@ -487,6 +488,35 @@ example :
     leafTargetsSs ss = false ∧ fitsSs (envA a0) ss = true ∧
     iterF f a0 = #[0xa7, 5, 1, 7, 5] ∧ iterV sigs (printModuleSim f) a0 = #[0xa7, 5, 1, 7, 10] ∧
     iterV sigs (printModule f) a0 = #[0xa7, 5, 1, 7, 5] := by decide +kernel
+
+/-! ## Array reads and writes (`_ArrayProxy`)
+
+  The simulator selects with `Evaluator._array_index` (`arrayIndex`: the key reduced to its FHDL width/signedness;
+  choice `k` if `0 ≤ k < n`, else the last one — since the fix of C01-array-key-unmasked, in `eval` AND `assign`); the
+  printed design carries Migen's lowering `Case(key, {0: b0, …, n-1: b(n-1)}).makedefault()` (`arrayCase`:
+  `bi` = `muxed.eq(choice_i)` for a read, `choice_i.eq(muxed)` for a write).  `arrayIndex` is compared with the real
+  `_array_index` on every run; whole designs with negative / over-range / signed keys go through the module ties. -/
+
+/-- **array_select_correct** (full strength): for EVERY key value — negative (`arr[~x]`, a signed key), beyond the
+    number of choices, in range — the lowered `Case` executes exactly the body of the choice the simulator selects. -/
+theorem array_select_correct (ρ : Env) (test : Expr) (bodies : List Stmts) (h : bodies ≠ []) (m : Mods) :
+    execF ρ (arrayCase test bodies) m =
+      execFs ρ (bodies.getD (arrayIndex (bitsSign test).1 (bitsSign test).2 bodies.length (evalF ρ test)) .nil) m :=
+  arrayCase_exec ρ test bodies h m
+
+/-- Regression (was C01-array-key-unmasked): `Array([1, 2, 4])[~x]`, x 2 bit.  x = 1: `~x = −2`, reduced to 2 bits
+    unsigned = 2 → choice 2 (the simulator took `choices[−2]` = choice 1); x = 3: `~x = −4` → 0 → choice 0 (was an
+    IndexError); x = 0: → 3 ≥ n → the last choice.  A signed key −1 selects the last choice. -/
+example : arrayIndex 2 false 3 (-2) = 2 ∧ arrayIndex 2 false 3 (-4) = 0 ∧ arrayIndex 2 false 3 (-1) = 2 ∧
+          arrayIndex 3 true 3 (-1) = 2 ∧ arrayIndex 3 true 5 3 = 3 ∧ arrayIndex 3 false 3 7 = 2 := by decide
+
+example :
+    let x : Expr := .sig 0 2 false
+    let y : Expr := .sig 1 4 false
+    let bodies : List Stmts := [1, 2, 4].map fun c => .cons (.assign y (.const c 4 false)) .nil
+    execF (envL [1, 0]) (arrayCase (.op1 .not x) bodies) [] = [(1, 4)] ∧
+    execF (envL [3, 0]) (arrayCase (.op1 .not x) bodies) [] = [(1, 1)] ∧
+    execF (envL [0, 0]) (arrayCase (.op1 .not x) bodies) [] = [(1, 4)] := by decide
 
 /-! ## Reset insertion (`insert_resets`)
 
